@@ -871,6 +871,11 @@ def _sem_diff(r, want_s):
             return f"spans rebuild {got!r}"
         if not _within_parent(r):
             return "coordinates outside parent"
+        # the gap runs it reports are the gap runs of the string (a zero-length or split run is not one)
+        runs = [[a, b] for a, b in _gap_runs("".join("1" if c == "-" else "0" for c in want_s))]
+        got_runs = [[int(a), int(b)] for a, b in r.get_gap_align_coordinates().tolist()]
+        if got_runs != runs:
+            return f"get_gap_align_coordinates {got_runs} != gap runs of the string"
         for i in range(n + 1):
             if int(r.get_seq_index(i)) != len(want_s[:i].replace("-", "")):
                 return f"get_seq_index({i})"
@@ -1008,13 +1013,15 @@ def _check_layout(out, s, ivs, deep):
         _result_ok(out, lambda: IndelMap.from_aligned_segments(locs, n), s,
                    "from_aligned_segments(ungapped segments of the string) is not the map of the string",
                    "from_aligned_segments:" + seg_cls, dict(inp, segments=[list(x) for x in segs]))
-    gaps = {}
-    for a, b in runs:
-        gaps[len(s[:a].replace("-", ""))] = b - a
-    out["evaluations"] += 1
-    _result_ok(out, lambda: gap_coords_to_map(gaps, len(useq)), s,
-               "gap_coords_to_map(gap runs of the string) is not the map of the string", "gap_coords_to_map:" + lc,
-               dict(inp, gaps=sorted(gaps.items())))
+    for order in ("ascending", "descending"):
+        # a dict has no order of its own: the insertion order must not matter
+        gaps = {}
+        for a, b in (runs if order == "ascending" else runs[::-1]):
+            gaps[len(s[:a].replace("-", ""))] = b - a
+        out["evaluations"] += 1
+        _result_ok(out, lambda: gap_coords_to_map(gaps, len(useq)), s,
+                   "gap_coords_to_map(gap runs of the string) is not the map of the string", "gap_coords_to_map:" + lc,
+                   dict(inp, gaps=list(gaps.items())))
     bump(out, "spec_from_segments", seg_cls)
     # reversal
     rlc = _layout_class("".join("1" if c == "-" else "0" for c in s[::-1]))
